@@ -316,6 +316,7 @@ def c16(tier):
     fs.fs9(P, C)
     # a value changes by installing a new string, never by writing into the stored one
     ax.km5(P, C)
+    ax.km6(P, C)
     # a typed read denotes the stored string: nothing of an earlier read (stream state, scratch) is kept between calls
     selftest.run(P, C, ('re1',))
     dp.re1(P, C)
